@@ -184,6 +184,156 @@ pub fn gen_store_case(rng: &mut Rng, class: &'static str, case: u64, thorough: b
     StoreCase { n_axes, regions, rows, direct, class, case }
 }
 
+/// Stores in which ONE row shape holds more than 0xFFFF distinct delta sets (the
+/// builder must split that encoding into several ItemVariationData subtables),
+/// surrounded by cheaper shapes (sorted before it) and costlier shapes (sorted
+/// after it) on disjoint regions, so that encodings exist on both sides of the
+/// split one. Rows of the small shapes are added before, in the middle of and
+/// after the big shape's rows. `variant` selects the size class:
+/// 0: 66_000..70_000 rows, 1: exactly 65_536 / 65_537 (a one/two-row tail chunk),
+/// 2: 65_535 (no split, control), 3 (thorough only): > 131_070 rows (two splits).
+pub fn gen_huge_mixed_case(rng: &mut Rng, case: u64, variant: u32) -> StoreCase {
+    let n_axes = *rng.pick(&[1usize, 2, 3]);
+    // regions 0..3 belong to the big shape, 3.. to the small shapes
+    let mut regions = gen_regions(rng, n_axes, 9, false);
+    let mut guard_n = 0;
+    while regions.len() < 9 && guard_n < 50 {
+        guard_n += 1;
+        for r in gen_regions(rng, n_axes, 9, false) {
+            if regions.len() < 9 && !regions.contains(&r) {
+                regions.push(r);
+            }
+        }
+    }
+    let n_regions = regions.len();
+    let n_big: usize = match variant {
+        0 => rng.range(66_000, 70_000) as usize,
+        1 => *rng.pick(&[65_536usize, 65_537]),
+        2 => 65_535,
+        _ => rng.range(131_071, 133_000) as usize,
+    };
+    // big shape: columns on regions 0.. with the given magnitude kinds
+    // (1 = i8, 2 = i16, 3 = i32); every variant can hold > 133_000 distinct rows
+    let big_kinds: &[u8] = *rng.pick(&[&[2u8, 1][..], &[1, 2], &[2, 2], &[1, 1, 1], &[3], &[1, 3], &[2]]);
+    let big_kinds: Vec<u8> = if big_kinds == [2] && n_big > 65_000 { vec![2, 1] } else { big_kinds.to_vec() };
+    let big_row = |i: usize| -> Vec<(usize, i32)> {
+        // a bijection from i to non-zero column values within each column's width class
+        let mut rem = i as i64;
+        let mut row = vec![];
+        for (c, k) in big_kinds.iter().enumerate() {
+            let (radix, lo, wide_from): (i64, i64, i64) = match k {
+                1 => (250, -125, 0),
+                2 => (60_000, -30_000, 200),
+                _ => (4_000_000, -2_000_000, 40_000),
+            };
+            let d = rem % radix;
+            rem /= radix;
+            let mut v = lo + d;
+            if v >= 0 {
+                v += 1; // skip zero
+            }
+            // make sure the column really needs its width in the first rows
+            if i == 0 {
+                v = if wide_from == 0 { -125 } else { lo - wide_from };
+            }
+            row.push((c, v as i32));
+        }
+        row
+    };
+    // small shapes on disjoint regions: (regions, kind, rows)
+    let mut small: Vec<(Vec<usize>, u8, usize)> = vec![];
+    let avail: Vec<usize> = (big_kinds.len()..n_regions).collect();
+    // one cheaper than anything the big shape can be (1 x i8 = row cost 1)
+    if !avail.is_empty() {
+        small.push((vec![avail[0]], 1, rng.range(150, 250) as usize));
+    }
+    // costlier ones
+    let mut next = 1;
+    let n_costly = rng.range(1, 3) as usize;
+    for s in 0..n_costly {
+        let width = match s {
+            0 => 3,
+            1 => 2,
+            _ => 1,
+        };
+        if next + width > avail.len() {
+            break;
+        }
+        let regs: Vec<usize> = avail[next..next + width].to_vec();
+        next += width;
+        // kind 3 (i32) makes a long-words subtable: row cost 4 per column
+        // the first one is costlier than every possible big shape (<= 6 bytes / row)
+        let kind = if s == 0 { if big_kinds.contains(&3) { 3 } else { *rng.pick(&[2u8, 3]) } } else { *rng.pick(&[2u8, 3, 3]) };
+        small.push((regs, kind, rng.range(300, 900) as usize));
+    }
+    let mut small_rows: Vec<Vec<(usize, i32)>> = vec![];
+    for (regs, kind, n) in &small {
+        for i in 0..*n {
+            let mut row = vec![];
+            for (c, r) in regs.iter().enumerate() {
+                let base: i64 = match kind {
+                    1 => -120,
+                    2 => -20_000,
+                    _ => -1_000_000,
+                };
+                let step: i64 = match kind {
+                    1 => 1,
+                    2 => 37,
+                    _ => 2_003,
+                };
+                let mut v = base + step * (i as i64) + c as i64 * 3;
+                if *kind == 1 {
+                    v = -120 + ((i as i64 + c as i64 * 7) % 240);
+                }
+                if v == 0 {
+                    v = 1;
+                }
+                row.push((*r, v as i32));
+            }
+            if *kind == 1 && regs.len() == 1 {
+                // only 240 distinct values: duplicates are merged by the builder, fine
+            }
+            small_rows.push(row);
+        }
+    }
+    rng.shuffle(&mut small_rows);
+    // positions at which the small rows are inserted: front, middle (around the
+    // 0xFFFF boundary of the insertion order) and back
+    let n_small = small_rows.len();
+    let cut1 = n_small / 3;
+    let cut2 = 2 * n_small / 3;
+    let mut rows: Vec<Vec<(usize, i32)>> = Vec::with_capacity(n_big + n_small + 8);
+    rows.extend(small_rows[..cut1].iter().cloned());
+    let mid_at = if rng.bool() { 65_535usize.min(n_big) } else { rng.range(0, n_big as i64) as usize };
+    // big rows in an order that is NOT the builder's sorted order
+    let stride = *rng.pick(&[1usize, 7, 65_537, 40_009]);
+    for k in 0..n_big {
+        if k == mid_at {
+            rows.extend(small_rows[cut1..cut2].iter().cloned());
+        }
+        let i = (k * stride) % n_big;
+        let i = if gcd(stride, n_big) == 1 { i } else { k };
+        rows.push(big_row(i));
+    }
+    rows.extend(small_rows[cut2..].iter().cloned());
+    // a few exact duplicates of rows on both sides of the split and an empty row
+    for _ in 0..6 {
+        let k = rng.usize(rows.len());
+        let r = rows[k].clone();
+        rows.push(r);
+    }
+    rows.push(vec![]);
+    StoreCase { n_axes, regions, rows, direct: false, class: "huge-mixed", case }
+}
+
+fn gcd(a: usize, b: usize) -> usize {
+    if b == 0 {
+        a
+    } else {
+        gcd(b, a % b)
+    }
+}
+
 fn w_region(r: &[TentBits]) -> VariationRegion {
     VariationRegion::new(
         r.iter()
@@ -210,6 +360,7 @@ fn canonical(row: &[(usize, i32)]) -> BTreeMap<usize, i64> {
 }
 
 fn viol(ctx: &mut Ctx, case: &StoreCase, kind: &str, row: usize, detail: serde_json::Value, bytes: Option<&[u8]>) {
+    VIOL_CALLS.with(|c| c.set(c.get() + 1));
     let sig = format!("ivs:{}:{}:case{}:row{}", kind, case.class, case.case, row);
     let mut d = detail;
     d["case"] = case.summary();
@@ -218,6 +369,14 @@ fn viol(ctx: &mut Ctx, case: &StoreCase, kind: &str, row: usize, detail: serde_j
         d["rows_region_delta"] = json!(case.rows);
     }
     ctx.violation(&sig, d, bytes);
+}
+
+thread_local! {
+    static VIOL_CALLS: std::cell::Cell<u64> = const { std::cell::Cell::new(0) };
+}
+
+fn ctx_violations_raw(_ctx: &Ctx) -> u64 {
+    VIOL_CALLS.with(|c| c.get())
 }
 
 /// Build + compile + check retrieval. Returns the compiled store for (b).
@@ -292,6 +451,36 @@ pub fn check_store(ctx: &mut Ctx, case: &StoreCase) -> Option<BuiltStore> {
     if raw.data.len() > 1 {
         ctx.count("ivs_stores_with_several_subtables", 1);
     }
+    // an encoding split over several subtables (a full 0xFFFF-row subtable followed by
+    // one with the same columns), and whether other encodings sit before / after it
+    {
+        let shapes: Vec<Option<(usize, Vec<u16>, bool)>> = raw.data.iter().map(|d| d.as_ref().map(|d| (d.item_count as usize, d.region_indexes.iter().map(|r| *r as u16).collect(), d.long_words))).collect();
+        let mut split_at = None;
+        for w in 0..shapes.len().saturating_sub(1) {
+            if let (Some(a), Some(b)) = (&shapes[w], &shapes[w + 1]) {
+                if a.0 == 0xFFFF && a.1 == b.1 && a.2 == b.2 {
+                    split_at.get_or_insert(w);
+                }
+            }
+        }
+        if let Some(w) = split_at {
+            ctx.count("ivs_stores_with_split_encoding", 1);
+            let mut last = w + 1;
+            while last + 1 < shapes.len() && shapes[last].as_ref().map(|s| s.0) == Some(0xFFFF) && shapes[last + 1].as_ref().map(|s| &s.1) == shapes[w].as_ref().map(|s| &s.1) {
+                last += 1;
+            }
+            if last > w + 1 {
+                ctx.count("ivs_stores_with_encoding_split_in_3_or_more", 1);
+            }
+            if w > 0 {
+                ctx.count("ivs_split_encoding_preceded_by_other_encodings", 1);
+            }
+            if last + 1 < shapes.len() {
+                ctx.count("ivs_split_encoding_followed_by_other_encodings", 1);
+                ctx.count("ivs_subtables_after_a_split_encoding", (shapes.len() - last - 1) as u64);
+            }
+        }
+    }
     if raw.regions.len() < case.regions.len() {
         ctx.count("ivs_stores_with_pruned_regions", 1);
     }
@@ -316,7 +505,19 @@ pub fn check_store(ctx: &mut Ctx, case: &StoreCase) -> Option<BuiltStore> {
     let mut out_index = Vec::with_capacity(case.rows.len());
     let mut seen_slots: BTreeMap<(u16, u16), u32> = BTreeMap::new();
     let mut ok = true;
+    let mut reported_before = ctx_violations_raw(ctx);
+    let mut bad_rows = 0usize;
     for (i, row) in case.rows.iter().enumerate() {
+        // a wrong remap can affect tens of thousands of rows: a dozen reports per store is enough
+        let now = ctx_violations_raw(ctx);
+        if now != reported_before {
+            bad_rows += 1;
+            reported_before = now;
+        }
+        if bad_rows >= 12 && case.rows.len() > 20_000 {
+            ctx.count("ivs_rows_not_checked_after_12_reports", (case.rows.len() - i) as u64);
+            break;
+        }
         ctx.eval();
         let Some((outer, inner)) = index[i] else {
             viol(ctx, case, "no-remap-entry", i, json!({"what": "VariationIndexRemapping has no entry for a returned temporary id", "id": ids[i]}), Some(&bytes));
